@@ -17,6 +17,8 @@ pub struct BfsStats {
     pub depth_completed: usize,
     pub frontier_sizes: Vec<usize>,
     pub truncated: bool,
+    /// one-step probes run from transitions whose successor fingerprint had been seen before
+    pub duplicate_probes: u64,
 }
 
 pub fn fp128(s: &str) -> u128 {
@@ -34,6 +36,10 @@ pub struct Bfs {
     pub max_states: u64,
     pub deadline: Option<Instant>,
     pub workers: usize,
+    /// Also run every op once (without expanding further) from each transition whose successor was
+    /// deduplicated: if the fingerprint abstracts away something the implementation remembers, the
+    /// merged state's one-step future is still compared on the real system (within the depth bound).
+    pub probe_duplicates: bool,
 }
 
 impl Bfs {
@@ -44,6 +50,7 @@ impl Bfs {
             max_states: u64::MAX,
             deadline: None,
             workers: par::workers(),
+            probe_duplicates: false,
         }
     }
 
@@ -76,6 +83,7 @@ impl Bfs {
                 Some(run(&frontier[*i], *o).map(|s| fp128(&s)))
             });
             let mut next: Vec<Vec<u16>> = Vec::new();
+            let mut dups: Vec<Vec<u16>> = Vec::new();
             let mut incomplete = false;
             for ((i, o), r) in items.iter().zip(results) {
                 match r {
@@ -86,11 +94,13 @@ impl Bfs {
                     }
                     Some(Some(fp)) => {
                         stats.transitions += 1;
+                        let mut h = frontier[*i].clone();
+                        h.push(*o);
                         if seen.insert(fp) {
                             stats.states += 1;
-                            let mut h = frontier[*i].clone();
-                            h.push(*o);
                             next.push(h);
+                        } else if self.probe_duplicates && depth + 1 < self.max_depth {
+                            dups.push(h);
                         }
                     }
                 }
@@ -98,6 +108,23 @@ impl Bfs {
             if incomplete {
                 stats.truncated = true;
                 break;
+            }
+            if !dups.is_empty() {
+                let probe_items: Vec<(usize, u16)> = (0..dups.len()).flat_map(|i| (0..self.n_ops as u16).map(move |o| (i, o))).collect();
+                let done: Vec<bool> = par::par_map_n(self.workers, &probe_items, |_, (i, o)| {
+                    if let Some(d) = deadline {
+                        if Instant::now() > d {
+                            return false;
+                        }
+                    }
+                    let _ = run(&dups[*i], *o);
+                    true
+                });
+                stats.duplicate_probes += done.iter().filter(|d| **d).count() as u64;
+                if done.iter().any(|d| !*d) {
+                    stats.truncated = true;
+                    break;
+                }
             }
             stats.depth_completed = depth + 1;
             if stats.states > self.max_states {
